@@ -193,7 +193,10 @@ fn c20_out_of_range_input_acts_as_bound() {
 fn set_acc(a: &mut Adsr, acc: u32) {
     let fs = a.phase_accumulator.verif_fs();
     let inc = a.phase_accumulator.verif_inc();
-    a.phase_accumulator = PhaseAccumulator::verif_from_parts(fs, acc, acc, inc, false);
+    // `last` is pure bookkeeping of the counter: arbitrary, no output may depend on it
+    let last: u32 = kani::any();
+    kani::assume(last <= ACC_MAX);
+    a.phase_accumulator = PhaseAccumulator::verif_from_parts(fs, acc, last, inc, false);
 }
 
 // @harness prop=C01 tier=quick timeout=1200
